@@ -931,6 +931,7 @@ class RpcServer:
                 except ProtocolVersionError as exc:
                     err_schema = info.result_schema if info.method_type == MethodType.UNARY else _EMPTY_SCHEMA
                     _write_error_stream(transport.writer, err_schema, exc, server_id=self._server_id)
+                    self._discard_refused_stream_input(transport, info)
                     return
 
             # Request validation. Both steps are answered with a typed error
@@ -954,6 +955,7 @@ class RpcServer:
             except Exception as exc:
                 err_schema = info.result_schema if info.method_type == MethodType.UNARY else _EMPTY_SCHEMA
                 _write_error_stream(transport.writer, err_schema, exc, server_id=self._server_id)
+                self._discard_refused_stream_input(transport, info)
                 return
 
             # Determine the SHM segment for this call's data plane (resolving
@@ -996,6 +998,24 @@ class RpcServer:
             _current_request_metadata.reset(md_token)
             _current_call_stats.reset(stats_token)
             _current_request_id.reset(token)
+
+    def _discard_refused_stream_input(self, transport: RpcTransport, info: RpcMethodInfo) -> None:
+        """Consume the input stream a client sends after a refused header-less stream call.
+
+        A client of a stream method that declares no header learns nothing
+        until it has opened its input stream (first tick / exchange, close or
+        cancel), so it always follows the request with one input IPC stream —
+        also when the call was refused with an error stream (version or
+        parameter rejection, or the method raising during initialization).
+        Reading it here keeps the connection at a message boundary; left
+        unread, the serve loop would take it for the next request.  A method
+        with a header needs nothing: its client reads the error where the
+        header was expected and never opens the input stream.
+        """
+        if info.method_type != MethodType.STREAM or info.header_type is not None:
+            return
+        with contextlib.suppress(pa.ArrowInvalid, OSError, EOFError, StopIteration):
+            _drain_stream(ValidatedReader(ipc.open_stream(transport.reader), IpcValidation.NONE))
 
     def _prepare_method_call(
         self, info: RpcMethodInfo, kwargs: dict[str, object]
@@ -1129,6 +1149,13 @@ class RpcServer:
         # the outer one handles streaming errors.  Only one access log fires per call.
         try:
             result: Stream[StreamState, Any] = getattr(self._impl, info.name)(**kwargs)
+            # Checked here, while a failure can still be answered: past this
+            # block an exception escapes the serve loop and the client waits
+            # for a reply that is never written.
+            if not isinstance(result, Stream):
+                raise TypeError(f"Method '{info.name}' must return a Stream, got {type(result).__name__}")
+            if info.header_type is not None and result.header is None:
+                raise TypeError(f"Method '{info.name}' declares header type but returned header=None")
         except Exception as exc:
             _hook_exc = exc
             status = "error"
@@ -1136,6 +1163,7 @@ class RpcServer:
             error_message = str(exc)
             with contextlib.suppress(BrokenPipeError, OSError):
                 _write_error_stream(transport.writer, _EMPTY_SCHEMA, exc, server_id=self._server_id)
+            self._discard_refused_stream_input(transport, info)
             return
         finally:
             if status == "error":
